@@ -15,12 +15,20 @@ for d in sorted(glob.glob(os.path.join(V, "seeded", "*"))):
     suite = json.load(open(os.path.join(d, "suite.json"))) if os.path.exists(os.path.join(d, "suite.json")) else {}
     res = json.load(open(os.path.join(d, "result.json"))) if os.path.exists(os.path.join(d, "result.json")) else {}
     pid = meta["property"]
-    chk = (res.get("checks") or {}).get(pid, {})
+    allchk = res.get("checks") or {}
+    chk = allchk.get(pid, {})
+    other = sorted(k for k, v in allchk.items() if k != pid and v.get("caught"))
+    if not chk.get("caught") and other:
+        # not caught by the check of the property the sub-agent was given, but by the check of the property that owns the code
+        chk = dict(allchk[other[0]])
+        chk["by_other"] = other[0]
     lines = chk.get("lines", [])
     viol = [l for l in lines if l.startswith("VIOLATION")]
     how = "-"
     if chk.get("caught"):
         how = "proof/correspondence broken (no-failing-input-found)" if all("no-failing-input-found" in l for l in viol) else "oracle violation with replay"
+        if chk.get("by_other"):
+            how += " - by the check of %s (the property that owns the changed code), not by %s's" % (chk["by_other"], pid)
     du, dc = res.get("demo_unchanged") or {}, res.get("demo_changed") or {}
     meta["verified_by_coordinator"] = {
         "test_suite_with_change": suite.get("ctest", "not run"), "test_suite_cmd": suite.get("cmd", ""),
